@@ -725,6 +725,10 @@ pub fn operation_modulus(left: &Data, right: &Data) -> Data {
 
 /// Implements a "<" (less) operation on Data items.
 pub fn operation_less(left: &crate::datamodel::Data, right: &crate::datamodel::Data) -> crate::datamodel::Data {
+    if let (Data::Integer(l), Data::Integer(r)) = (left, right) {
+        // Exact, a conversion to f64 loses precision for large values.
+        return Data::Boolean(l < r);
+    }
     if left.is_numeric() && right.is_numeric() {
         Data::Boolean(left.as_number() < right.as_number())
     } else {
@@ -743,6 +747,10 @@ pub fn operation_less(left: &crate::datamodel::Data, right: &crate::datamodel::D
 
 /// Implements a "<=" (less or equal) operation on Data items.
 pub fn operation_less_equal(left: &crate::datamodel::Data, right: &crate::datamodel::Data) -> crate::datamodel::Data {
+    if let (Data::Integer(l), Data::Integer(r)) = (left, right) {
+        // Exact, a conversion to f64 loses precision for large values.
+        return Data::Boolean(l <= r);
+    }
     if left.is_numeric() && right.is_numeric() {
         Data::Boolean(left.as_number() <= right.as_number())
     } else {
@@ -761,6 +769,10 @@ pub fn operation_less_equal(left: &crate::datamodel::Data, right: &crate::datamo
 
 /// Implements a ">" (greater) operation on Data items.
 pub fn operation_greater(left: &crate::datamodel::Data, right: &crate::datamodel::Data) -> crate::datamodel::Data {
+    if let (Data::Integer(l), Data::Integer(r)) = (left, right) {
+        // Exact, a conversion to f64 loses precision for large values.
+        return Data::Boolean(l > r);
+    }
     if left.is_numeric() && right.is_numeric() {
         Data::Boolean(left.as_number() > right.as_number())
     } else {
@@ -775,6 +787,10 @@ pub fn operation_greater(left: &crate::datamodel::Data, right: &crate::datamodel
 
 /// Implements a ">=" (greater or equal) operation on Data items.
 pub fn operation_greater_equal(left: &Data, right: &Data) -> Data {
+    if let (Data::Integer(l), Data::Integer(r)) = (left, right) {
+        // Exact, a conversion to f64 loses precision for large values.
+        return Data::Boolean(l >= r);
+    }
     if left.is_numeric() && right.is_numeric() {
         Data::Boolean(left.as_number() >= right.as_number())
     } else {
